@@ -1182,7 +1182,12 @@ class Interp:
         if ok:
             for n in walk_own(fd.node):
                 if isinstance(n, ast.Return):
-                    if not isinstance(n.value, ast.Call) or not isinstance(self.ix.callee(fd.module, fd, n.value), ClassDef):
+                    v = n.value
+                    if isinstance(v, ast.Name):
+                        bs = fd.local_bindings().get(v.id, [])
+                        if len(bs) == 1 and bs[0][0] == 'assign' and bs[0][1] is not None:
+                            v = bs[0][1]
+                    if not isinstance(v, ast.Call) or not isinstance(self.ix.callee(fd.module, fd, v), ClassDef):
                         ok = False
                         break
         cache[fd] = ok
